@@ -144,6 +144,44 @@ func runC13(c *fw.Ctx) {
 	}
 	c.Cases("pinned", len(pins), true, func(i int, r *rng.R) { c13Case(c, r, pins[i]) })
 	historyCases(c, "history", 600, 60000, probeNative)
+	// typed container flavours (with nil entries) inside native trees
+	c.Cases("typed-flavours", 6, true, func(i int, r *rng.R) {
+		o1, l1 := at.NewObject("x", 1), at.NewList(1)
+		var nat any
+		var want *spec.Spec
+		switch i {
+		case 0:
+			nat = []any{[]at.Object{o1, nil}, "s"}
+			want = spec.ListV(spec.ListV(spec.ObjV("x", spec.IntV(1)), spec.NilV()), spec.StrV("s"))
+		case 1:
+			nat = []any{[]at.List{nil, l1, nil}}
+			want = spec.ListV(spec.ListV(spec.NilV(), spec.ListV(spec.IntV(1)), spec.NilV()))
+		case 2:
+			nat = map[string]any{"m": map[string]at.Object{"n": nil, "o": o1}}
+			want = spec.ObjV("m", spec.ObjV("n", spec.NilV(), "o", spec.ObjV("x", spec.IntV(1))))
+		case 3:
+			nat = map[string]any{"m": map[string]at.List{"n": nil}, "t": []int{1, 2}}
+			want = spec.ObjV("m", spec.ObjV("n", spec.NilV()), "t", spec.ListV(spec.IntV(1), spec.IntV(2)))
+		case 4:
+			nat = []any{make([]at.Object, 3), map[string]float64{"f": 0.5}}
+			want = spec.ListV(spec.ListV(spec.NilV(), spec.NilV(), spec.NilV()), spec.ObjV("f", spec.FloatV(0.5)))
+		default:
+			nat = map[string]any{"e": []at.List{}, "s": []string{"a"}, "b": map[string]bool{"t": true}}
+			want = spec.ObjV("e", spec.ListV(), "s", spec.ListV(spec.StrV("a")), "b", spec.ObjV("t", spec.BoolV(true)))
+		}
+		in := func() string { return fmt.Sprintf("native tree with typed container flavours: %v", nat) }
+		guard(c, in, func() {
+			imported := fromNative(nat)
+			if w := stringCanon(imported); w != want.Canon() {
+				c.Violate("import-differs", in(), want.Canon(), w)
+				return
+			}
+			if d := nativeDiff(nativeOf(imported), want, ""); d != "" {
+				c.Violate("import-export-roundtrip-differs", in(), want.Canon(), d)
+			}
+			c.Distinct(in())
+		})
+	})
 	c.Cases("import-after-rejection", c.N(60, 3000), false, func(i int, r *rng.R) {
 		t := spec.GenTree(r, spec.Opts{MaxDepth: r.Range(2, 4), MaxWidth: r.Range(2, 4), ScalarBias: 4})
 		nat := drive.Native(t)
@@ -236,6 +274,38 @@ func c13Case(c *fw.Ctx, r *rng.R, tree *spec.Spec) {
 		c.Distinct(tree.Canon())
 		c.Max("max_depth", int64(tree.Depth()))
 		real := drive.Build(r, tree)
+		if r != nil && r.Chance(1, 6) {
+			// a derived structure (user type embedding a List / Object) somewhere inside: it is a container like any other
+			if snap, err := drive.Walk(real); err == nil {
+				node, _, _ := pickContainer(r, snap)
+				dspec := spec.ObjV("derived", spec.IntV(1), "l", spec.ListV(spec.StrV("x")))
+				var d any = NewDObject("derived", 1, "l", at.NewList("x"))
+				if r.Bool() {
+					dspec = spec.ListV(spec.IntV(7), spec.ObjV("k", spec.NilV()))
+					d = NewDDList(7, at.NewObject("k", nil))
+				}
+				ok := false
+				drive.Protect(func() {
+					switch x := node.Id.(type) {
+					case at.List:
+						x.Add(d)
+						ok = true
+					case at.Object:
+						x.Set("derived-here", d)
+						ok = true
+					}
+				})
+				if ok {
+					// the expected tree gets the same content at the same place: re-walk (the walker sees derived values as
+					// what they are, containers) and use that as the reference
+					if w, err := drive.Walk(real); err == nil {
+						tree = w.ToSpec()
+						_ = dspec
+						c.Count("trees_with_derived_structures")
+					}
+				}
+			}
+		}
 		// 1. export: plain Go values only, deep-equal to the content
 		nat := nativeOf(real)
 		if d := nativeDiff(nat, tree, ""); d != "" {
